@@ -50,6 +50,10 @@ EXPLANATION += " Added: (R8) the converter's argument table is the documented on
 # --- metadata added for batch 8
 EXPLANATION += ' Added: (R10) the same ordering clause for the converter (C08-R1).'
 # --- end metadata batch 8
+# --- metadata added after the round-2 refactoring twins
+TECHNIQUE += '; evaluation of parse_args on a recording model of argparse.ArgumentParser'
+EXPLANATION += ' R2 / R8: parse_args() is interpreted with argparse.ArgumentParser replaced by a recorder: the option strings, actions and defaults are the values the calls receive (from literals, a table, a loop), any other parser method called is reported, and the value returned must be what parser.parse_args() gave.'
+# --- end metadata round-2 twins
 
 
 def _polarity_of_many(test, param="many"):
